@@ -7,7 +7,7 @@ EXPLANATION = ("Bounded symbolic checking (engine S, REAL mode, sqrt axiomatised
                "This is a partial claim: for general matrices the QL / QR iterations have no bound on their trip count over symbolic data.")
 FUNCTIONS = ["EigenValue<double>::{ctor (symmetry dispatch),tred2,tql2,orthes,hqr2,cdiv,getV,getD,getRealEigenValues,getImagEigenValues,isSymmetric}", "MatrixTools::{pow(A,double),exp} (1x1, diagonal, upper-triangular 2x2)", "RowMatrix/ColMatrix/LinearMatrix accessors"]
 BOUNDS = ("entries real in [-100,100], non-zero couplings at least 0.001 in magnitude (away from the kernels' relative-epsilon 'negligible' regime); shapes: 1x1; 2x2 symmetric; 2x2 diagonal; 2x2 upper/lower triangular with distinct diagonal; 2x2 Jordan block; "
-          "3x3 symmetric = coupled 2x2 block + isolated diagonal entry at position 0, 1 or 2 (one storage class: with the other two a solver time-out under load produced an unconfirmed branch, so they are outside); all three storage classes for the 1x1 and 2x2 inputs")
+          "3x3 symmetric = coupled 2x2 block + isolated diagonal entry at position 0, 1 or 2 (one storage class: with the other two a solver time-out under load produced an unconfirmed branch, so they are outside); all three storage classes for the 1x1 and 2x2 inputs; 3x3 non-symmetric with rational spectrum: fully symbolic upper-triangular (distinct diagonal), and [[a,0,c],[d,e,f],[0,0,g]] with (a,d,e) one of (4,4,1), (-1,3,0.5) and c, f, g symbolic")
 OUTSIDE = ["general dense, companion, rotation-block (complex spectrum), repeated-eigenvalue, defective and graded matrices, and every size above 3: the iterations do not terminate symbolically", "the backward-error bound in floating point (exact equations are proved instead, away from the epsilon regime)",
            "matrix exponential and real matrix power for symmetric and lower-triangular input (their eigenvectors carry square roots; measured: no verdict within 400 s) and non-integer powers", "DualityDiagram"]
 ASSUMPTIONS = BASE_ASSUMPTIONS + ["sqrt axioms: s >= 0, s*s = x, strictly increasing", "|a| is introduced as t>=0 and (t=a or t=-a) instead of a path split"]
@@ -20,5 +20,6 @@ JOBS = [
     Job("small", "C06.cpp", ["HLO=0", "HHI=3"], env=E, budget_s=300, desc="1x1, 2x2 symmetric, 2x2 diagonal, 2x2 triangular; all storage classes"),
     Job("matrix-functions", "C06.cpp", ["HLO=0", "HHI=3", "MATFUN"], env=E, budget_s=200, desc="MatrixTools::pow(A, p) for p = -2,-1,1,2,3 against repeated products / inverses and MatrixTools::exp against the closed-form sum of the power series, for 1x1, diagonal and upper-triangular 2x2 input with distinct eigenvalues; exp(A).V = V.exp(D), exp(A) commutes with A; a reported singularity of V is accepted"),
     Job("defective", "C06.cpp", ["HLO=5", "HHI=5"], env=E, budget_s=200, desc="2x2 Jordan block (repeated eigenvalue, one eigenvector): |A.V - V.D| <= 16 eps |A| |V| entrywise, spectrum, trace, determinant"),
+    Job("hessenberg3", "C06.cpp", ["HLO=6", "HHI=6"], env=E, budget_s=300, desc="3x3 non-symmetric input with a rational spectrum, all storage classes: fully symbolic upper-triangular matrices, and block-triangular matrices [[a,0,c],[d,e,f],[0,0,g]] (c zero or not) whose Hessenberg reduction meets an already reduced column; there the leading 2x2 block is one of two concrete blocks with a rational rotation, last column and isolated eigenvalue symbolic: A.V = V.D, spectrum lists, trace"),
     Job("block3", "C06.cpp", ["HLO=4", "HHI=4"], fix="A.storage=0", env=E, budget_s=300, desc="3x3 symmetric: coupled 2x2 block + isolated entry in each position"),
 ]
